@@ -181,7 +181,8 @@ def model_lines(sc, impl_log=None, ops=None):
             L.append(f'adv {op[1]}')
         else:
             raise ValueError(op)
-    L += ['tree', 'values', 'residue']
+    L += ['tree', 'values', 'residue', 'spec passorder impl', 'spec handlerorder impl', 'spec passorder model',
+          'spec handlerorder model']
     return L, first
 
 
@@ -877,6 +878,7 @@ def run_both(ctx, scenarios):
             model_ops.append((head.strip(), entries))
         rec['model'] = model_ops
         rec['mtree'], rec['mvalues'], rec['mresidue'] = ans[first + nops:first + nops + 3]
+        rec['leanspec'] = dict(zip(['pass_impl', 'horder_impl', 'pass_model', 'horder_model'], ans[first + nops + 3:first + nops + 7]))
     return results
 
 
